@@ -14,8 +14,12 @@ use serde_json::json;
 pub fn run(_ctx: &Ctx, index_base: u64) -> Stats {
     let k = SEGMENTS.len() as u64;
     let nseq = enumr::seq_count(k, 3);
-    let total = nseq * 4;
-    par_sweep(total, |i, st| {
+    // x {no body, a form body with folding on (with and without parameters)}: the path is taken apart and the URI
+    // rebuilt when a form is folded
+    let total = nseq * 4 * 3;
+    par_sweep(total, |i0, st| {
+        let form = i0 % 3;
+        let i = i0 / 3;
         let seq = enumr::seq_decode(i / 4, k, 3);
         let trailing = (i & 1) == 1;
         let s3 = (i & 2) == 2;
@@ -33,15 +37,29 @@ pub fn run(_ctx: &Ctx, index_base: u64) -> Stats {
             Ok(p) => p.path,
             Err(_) => "/".into(),
         });
+        if form > 0 {
+            plan.method = "POST".into();
+            plan.headers.push(("Content-Type".into(), b"application/x-www-form-urlencoded".to_vec()));
+            plan.signed.push("content-type".into());
+            plan.url_params = vec![(b"u".to_vec(), b"1".to_vec())];
+            if form == 1 {
+                plan.body = b"Action=Send&b=2".to_vec();
+                plan.body_params = Some(vec![(b"Action".to_vec(), b"Send".to_vec()), (b"b".to_vec(), b"2".to_vec())]);
+            } else {
+                plan.url_params.clear();
+                plan.body_params = Some(vec![]);
+            }
+        }
         let built = build(&plan);
         let mut cfg = Cfg::basic(e2e::base_instant());
         cfg.s3 = s3;
+        cfg.fold = form > 0;
         let case = Case { wire: WireReq::from_wire(&built.wire), cfg, prov: ProvSpec::standard() };
-        let j = e2e::judge_into(index_base + i, &case, st);
+        let j = e2e::judge_into(index_base + i0, &case, st);
         if j.reference.accepted() {
             st.state(&(s3, j.reference.canonical_path.clone()));
         }
-        st.nontrivial(&(s3, &path, "e2e"));
-        st.sample(i, total, || json!({"e2e_path": path, "s3": s3}));
+        st.nontrivial(&(s3, &path, form, "e2e"));
+        st.sample(i0, total, || json!({"e2e_path": path, "s3": s3}));
     })
 }
